@@ -6,8 +6,13 @@
 #include "../sim/json.h"
 
 #include <aws/common/common.h>
+#include <aws/common/logging.h>
+#include <aws/common/log_formatter.h>
+#include <aws/common/date_time.h>
+#include <aws/common/error.h>
 
 #include <signal.h>
+#include <stdarg.h>
 #include <sched.h>
 #include <string.h>
 #include <stdio.h>
@@ -232,6 +237,24 @@ static void *watchdog(void *arg) {
     return nullptr;
 }
 
+// Thread-local first-use state inside the library (the formatter caches the textual thread id per OS thread): touch it once on
+// every pooled OS thread so that a run never depends on which earlier runs happened to use the same OS thread.
+static void warmup_va(struct aws_logging_standard_formatting_data *fd, ...) {
+    va_list ap;
+    va_start(ap, fd);
+    aws_format_standard_log_line(fd, ap);
+    va_end(ap);
+}
+static void thread_warmup(void) {
+    char buf[256];
+    struct aws_logging_standard_formatting_data fd;
+    memset(&fd, 0, sizeof fd);
+    fd.log_line_buffer = buf; fd.total_length = sizeof buf; fd.level = AWS_LL_INFO; fd.subject_name = "warmup"; fd.format = "x";
+    fd.date_format = AWS_DATE_FORMAT_ISO_8601; fd.allocator = aws_default_allocator();
+    warmup_va(&fd);
+    aws_reset_error();
+}
+
 static RunInfo run_one(const sim::Plan &p) {
     g_cur_plan = &p;
     RunInfo ri = g_h->run(p);
@@ -311,6 +334,7 @@ int main(int argc, char **argv) {
     signal(SIGFPE, on_signal);
     if (__sanitizer_set_death_callback) __sanitizer_set_death_callback(on_sanitizer_death);
     aws_common_library_init(aws_default_allocator());
+    sim::set_thread_warmup(thread_warmup);
     sim::init_process(24);
     sim::set_violation_sink(viol_sink);
     pthread_t wd;
